@@ -135,8 +135,8 @@ def parse_assignments(path):
         return rows
     with _open(path) as f:
         for l in f:
-            if l.startswith("#"):
-                continue
+            if l.startswith("#read_id\t") or l.startswith("# ") or (l.startswith("#") and l.count("\t") < 5):
+                continue          # header lines only: a read name may start with '#'
             v = l.rstrip("\n").split("\t")
             d = dict(zip(cols, v))
             d["exon_list"] = [tuple(map(int, x.split("-"))) for x in d["exons"].split(",")] if d.get("exons") not in (None, "", ".") else []
